@@ -520,17 +520,18 @@ def stream_buffer_real_events(flavour: int, big: int, p0: int, p1: int, p2: int,
 from vf.rt import MODE as _MODE  # noqa: E402
 
 MODE_QUICK = _MODE["tier"] != "thorough"
-ENDINGS = ["WINDOW_UPDATE (stream and connection)", "RST_STREAM", "client EOF", "connection reset", "nothing (the client stays silent)", "WINDOW_UPDATE on the connection only"]
+ENDINGS = ["WINDOW_UPDATE (stream and connection)", "RST_STREAM", "client EOF", "connection reset", "nothing (the client stays silent)", "WINDOW_UPDATE on the connection only",
+           "WINDOW_UPDATE on the stream, then (in a later read) on the connection"]
 
 
 @harness(
     "C08",
-    dom={"flavour": (0, 1), "wi": (0, 2), "ci": (0, 2), "ending": (0, 5), "sibling": "bool"},
+    dom={"flavour": (0, 1), "wi": (0, 3), "ci": (0, 2), "ending": (0, 6), "sibling": "bool"},
     split={"flavour": "each", "ending": "each"},
     witnesses=[{"flavour": 0, "wi": 0, "ci": 1, "ending": 0, "sibling": True}, {"flavour": 1, "wi": 1, "ci": 2, "ending": 1, "sibling": False}],
     budget={"quick": 200, "thorough": 900},
     per_path=240,
-    bounds="HTTP/2 response of about 240 kB (thorough 600 kB) written in chunks of {8 kB, 48 kB, 100 kB} to a client whose stream window is {0, 100, 65535}, optionally next to a small sibling stream; then one of 6 endings (window re-opened on both levels / on the connection only, RST_STREAM, EOF, reset, silence); both workers",
+    bounds="HTTP/2 response of about 240 kB (thorough 600 kB) written in chunks of {8 kB, 48 kB, 100 kB} to a client whose stream window is {0, 100, 65535, 1000000 (the connection window is then the limit)}, optionally next to a small sibling stream; then one of 7 endings (window re-opened on both levels / on the connection only / on the stream first and the connection in a later read, RST_STREAM, EOF, reset, silence); both workers",
     encodes=["hypercorn/protocol/h2.py::StreamBuffer.push", "hypercorn/protocol/h2.py::H2Protocol._send_data", "hypercorn/protocol/h2.py::H2Protocol._handle_events", "hypercorn/protocol/h2.py::H2Protocol.handle",
              "hypercorn/asyncio/tcp_server.py::TCPServer.protocol_send", "hypercorn/trio/tcp_server.py::TCPServer.protocol_send", "hypercorn/trio/worker_context.py::EventWrapper.clear"],
     stubs=["tier C runtimes (virtual asyncio loop / trio MockClock)", "client frames are precomputed with the h2 client library (it needs no server input to grant window)", "the session body runs un-traced (concrete execution per solver-chosen choice vector): byte-level symbolic models of 100 kB buffers are out of reach"],
@@ -546,9 +547,9 @@ def h2_backpressure_session(flavour: int, wi: int, ci: int, ending: int, sibling
     from vf.stubs.clients import H2Client, H2FrameObserver
 
     flavour = "asyncio" if conc(flavour, 0, 1) == 0 else "trio"
-    window = [0, 100, 65535][conc(wi, 0, 2)]
+    window = [0, 100, 65535, 1000000][conc(wi, 0, 3)]
     chunk = [8192, 49152, 100000][conc(ci, 0, 2)]
-    ending = conc(ending, 0, 5)
+    ending = conc(ending, 0, 6)
     sibling = True if sibling else False
     TOTAL = 240000 if MODE_QUICK else 600000
     n_chunks = (TOTAL + chunk - 1) // chunk
@@ -584,7 +585,11 @@ def h2_backpressure_session(flavour: int, wi: int, ci: int, ending: int, sibling
         c.request(3, b"GET", b"/sib", end_stream=True)
         c.window_update(3, 1000)  # the sibling has window of its own ...
         if window == 65535:
-            c.window_update(0, 7)  # ... and, where the big stream has used up the connection window, exactly its 7 bytes of connection credit
+            c.window_update(0, 7)
+        elif window > 65535:
+            # the big stream is limited by the connection window only and competes for new connection credit:
+            # one full frame for it plus the sibling's 7 bytes (the scheduler alternates between equal streams)
+            c.window_update(0, 16384 + 7)  # ... and, where the big stream has used up the connection window, exactly its 7 bytes of connection credit
         acts += [("feed", c.take()), ("sleep", 0.5)]
     if ending == 0:
         c.window_update(1, 2000000)
@@ -598,6 +603,11 @@ def h2_backpressure_session(flavour: int, wi: int, ci: int, ending: int, sibling
     elif ending == 3:
         acts.append(("reset",))
     elif ending == 5:
+        c.window_update(0, 2000000)
+        acts.append(("feed", c.take()))
+    elif ending == 6:
+        c.window_update(1, 2000000)
+        acts += [("feed", c.take()), ("sleep", 0.5)]
         c.window_update(0, 2000000)
         acts.append(("feed", c.take()))
     acts.append(("sleep", 2.0))
@@ -627,7 +637,9 @@ def h2_backpressure_session(flavour: int, wi: int, ci: int, ending: int, sibling
         why = "the stalled stream blocked its sibling"
     elif ending in (0, 1, 2, 3) and not log["done"] and not (ending in (1, 2, 3) and log["accepted"] < TOTAL and _app_ended(obs, log)):
         why = f"pressure ended by '{ENDINGS[ending]}' but the application is still blocked in send() after accepting {log['accepted']} bytes"
-    elif ending == 0 and (written != TOTAL or o.streams[1].ended != 1):
+    elif (ending in (0, 6) or (ending == 5 and window == 1000000)) and not log["done"]:
+        why = f"credit for everything granted ('{ENDINGS[ending]}') but the application is still blocked in send() after accepting {log['accepted']} bytes"
+    elif (ending in (0, 6) or (ending == 5 and window == 1000000)) and (written != TOTAL or o.streams[1].ended != 1):
         why = f"window re-opened but only {written} of {TOTAL} bytes delivered (END_STREAM x{o.streams[1].ended})"
     elif ending == 5 and window == 65535 and written < 65535:
         why = f"connection window re-opened but the stream did not use its own window ({written} bytes delivered)"
